@@ -22,7 +22,7 @@ import typing as t
 from .. import astq
 from ..cfg import Node, cfg_of
 from ..fold import Folder, Unfoldable
-from ..loader import AnalysisError, AnchorMissing, ClassInfo, FuncInfo, dotted, nested_funcs, norm, walk_no_nested
+from ..loader import AnalysisError, AnchorMissing, ClassInfo, FuncInfo, Repo, dotted, nested_funcs, norm, walk_no_nested
 from ..report import Ctx
 from ._c17_helpers import UNK, Ev, FuncEval, Lang, Obj, Raised, crosscheck, fold_regex_expr, normalised, self_call, sole_method
 
@@ -30,8 +30,12 @@ LEVEL_TEXT = (
     "Static decision of structural clauses of C17 on /repo's current source. Every clause is decided on what the code "
     "computes, not on how it is spelled: statement-level conditional expressions are read as if statements; a name bound "
     "on several branches (a flag set by if/else, a default a branch overrides, `x |= ...`) has, in a scenario, the value "
-    "of the binding that is live on the paths the scenario permits; helpers of the same module, methods nobody overrides, "
-    "local lambdas and nested functions are followed on the scenario's values. (R17.1) In http.parse_accept_header every "
+    "of the binding that is live on the paths the scenario permits; helpers of the same module, methods nobody overrides "
+    "(plain, static and class methods; reached through self, the class name, type(self) / self.__class__, or a local name that holds the method), "
+    "local lambdas and nested functions are followed on the scenario's values; `with contextlib.suppress(<classes>)` continues after the block "
+    "when a statement in it raises a covered exception (any other context manager is not followed); records of a typing.NamedTuple class of the module, "
+    "operator.itemgetter / attrgetter keys, starred unpacking, `a, b = map(f, (x, y))` and unpacking a non-iterable (TypeError, taken to the handler "
+    "that covers it) are evaluated as Python does. (R17.1) In http.parse_accept_header every "
     "quality that reaches the (item, q) pair appended to the result - written at the append, built into a local before it, "
     "returned by an item helper of the same module whose None result the loop skips, or yielded by a generator nested in the "
     "function whose items are collected in order (list() / tuple() / [*g()] handed to the class or bound to the returned "
@@ -94,12 +98,12 @@ LEVEL_TEXT = (
     "calls; equality comparisons with locals expanded, also inside a helper that receives offer and range); "
     "CharsetAccept._value_matches is followed on 12 label pairs with every codecs.lookup call answered by the scenario on "
     "both of its outcomes - a codec is found (one canonical name for every spelling and alias of the label) or LookupError "
-    "(the label is unknown to the registry), the exception taken to the handler that covers it - and must match labels "
+    "(the label is unknown to the registry), the exception taken to the handler or contextlib.suppress block that covers it - and must match labels "
     "that differ only in case or are aliases of one codec, on the found path and on the handler's path alike (charset "
     "names are case-insensitive whether or not Python ships a codec), and must not match different charsets. NOT decided: "
     "optimality of the negotiated offer over all headers and offer lists as "
     "a whole (it follows from these clauses together with list immutability, C08 R8.1, which is not re-checked here), "
-    "the charset alias table of the codecs module, and media-range parameter semantics beyond the scenario table."
+    "the charset alias table of the codecs module, and media-range parameter semantics beyond the scenario table (which includes: equal parameters match in any order, a differing parameter value does not)."
 )
 TRUSTED = [
     "CPython ast and re._parser (pattern syntax trees); the re engine run on folded patterns against constant sample strings",
@@ -1974,8 +1978,12 @@ def _spec_samples(kind: str) -> list[str]:
 def _eval_method(ctx: Ctx, folder: Folder, fi: FuncInfo, args: dict[str, t.Any]) -> tuple[list[t.Any], bool, FuncEval]:
     fe = FuncEval(ctx.repo, folder, fi, params=args)
     res = fe.concrete()  # the arguments are constants: one path, followed statement by statement
-    if res is not None and (res[0] == "raise" or res[1] is not UNK):
+    fe.definite = res is not None and (res[0] == "raise" or res[1] is not UNK)  # type: ignore[attr-defined]
+    if fe.definite:  # type: ignore[attr-defined]
+        assert res is not None
         return ([res[1]] if res[0] == "return" else []), res[0] == "raise", fe
+    # the run could not be followed: a summary over the paths the known values do not exclude (may include paths that
+    # no input takes - a verdict other than "every path agrees" is then not a finding)
     rets, raises = fe.outcomes()
     return [v for _, v in rets], raises, fe
 
@@ -2338,6 +2346,9 @@ _SCEN = {
         ("*/*", "text/html", True), ("*/*", "text/html;level=1", True), ("text/*", "text/html", True), ("text/*", "text/html;level=1", True), ("TEXT/*", "text/HTML", True),
         ("text/*", "image/png", False), ("text/html", "text/html", True), ("Text/HTML", "text/html", True), ("text/html", "text/plain", False), ("text/html", "image/html", False),
         ("text/html;level=1", "text/html;level=1", True), ("text/html;level=1", "text/html;level=2", False), ("text/html;level=1", "text/html", False), ("image/png", "text/html", False),
+        # parameters are a set: the order in which range and offer spell them does not matter (RFC 9110 8.3.1)
+        ("text/html;level=1;charset=utf-8", "text/html;charset=utf-8;level=1", True), ("text/html;charset=utf-8;level=1", "text/html;level=1;charset=utf-8", True),
+        ("text/html;level=1;charset=utf-8", "text/html;charset=utf-8;level=2", False),
     ],
 }
 _MANDATORY = {"generic": 2, "lang": 2, "charset": 2, "mime": 5}  # leading entries of each table: the wildcard scenarios
@@ -2373,12 +2384,27 @@ def _r174(ctx: Ctx, folder: Folder, accept: ClassInfo, fam: list[ClassInfo]) -> 
             if mandatory:
                 # the wildcard must be accepted on its own: on every path feasible for this input, whatever the normalised comparison yields
                 ok = truths == {True} and not raises
+                if not ok and not fe.definite and kind == "charset":  # type: ignore[attr-defined]
+                    # undecided because the comparison goes through the codec registry: the same input with codecs.lookup
+                    # answered from the table ('*' is no codec label) - a wildcard accepted on its own never gets there
+                    res = _run_with_registry(repo, folder, fi, {vp: value, ip: item}, _registry_hook(repo))
+                    if res is not None:
+                        fe.definite = True  # type: ignore[attr-defined]
+                        try:
+                            ok = res[0] == "return" and bool(res[1]) is True
+                        except Exception:
+                            ok = False
+                        got = f"{'raises ' + str(res[1]) if res[0] == 'raise' else bool(res[1])} once codecs.lookup is answered from the registry table (without it: {got})"
+                if not ok and not fe.definite:  # type: ignore[attr-defined]
+                    raise AnalysisError(f"{fi.qualname}: cannot follow the method on wildcard range {item!r} and offer {value!r} (path summary: {got}); whether the wildcard is accepted on its own is not decided")
                 decided += 1
                 ctx.ob("R17.4", f"{fi.qualname}: wildcard range {item!r} matches offer {value!r} before any normalised comparison", ok, f"evaluates to {got}", fi, fi.node, f"{fi.qualname} {item} vs {value}")
                 continue
             if UNK in truths or fe.unknown_tests:
                 continue  # needs a normaliser this evaluator cannot compute (codecs.lookup): covered by the agreement clause below
             ok = truths == {expect} and not raises
+            if not ok and not fe.definite:  # type: ignore[attr-defined]
+                continue  # a path summary that disagrees may include paths no input takes: not a finding (the floor below counts decided scenarios)
             decided += 1
             ctx.ob("R17.4", f"{fi.qualname}: range {item!r} {'matches' if expect else 'does not match'} offer {value!r}", ok, f"evaluates to {got}", fi, fi.node, f"{fi.qualname} {item} vs {value}")
         if kind == "charset":
@@ -2417,15 +2443,9 @@ _CHARSET_SCEN = [
 ]
 
 
-def _charset_registry_scenarios(ctx: Ctx, folder: Folder, fi: FuncInfo, vp: str, ip: str) -> int:
-    """CharsetAccept._value_matches followed statement by statement on charset labels with every call of codecs.lookup
-    answered by the scenario on BOTH of its outcomes - a codec is found (a record whose .name is the canonical name,
-    the same for every spelling and alias of the label) or LookupError is raised (the label is not in the registry) -
-    so that each path of the normaliser, the handler's included, has to produce a case-insensitive, alias-free form.
-    Charset names are case-insensitive whether or not Python ships a codec for them."""
-    repo = ctx.repo
-    seen_lookup: list[int] = []
-
+def _registry_hook(repo: Repo) -> t.Callable[..., t.Any]:
+    """call hook answering `codecs.lookup(<label>)` from the table of sample labels (_CODECS): a record with the canonical
+    .name, or LookupError raised in the run (:class:`Raised`)."""
     def hook(call: ast.Call, ev: Ev, env: dict, fe: FuncEval):
         d = dotted(call.func)
         fq = repo.resolve(fe.fi.module, d, fe.fi.module.local_imports(fe.fi.node)) if d else None
@@ -2436,21 +2456,40 @@ def _charset_registry_scenarios(ctx: Ctx, folder: Folder, fi: FuncInfo, vp: str,
         a = ev.val(call.args[0], env)
         if not isinstance(a, str):
             return UNK
-        seen_lookup.append(1)
         canon = _CODECS.get(a.lower())
         if canon is None:
             raise Raised("LookupError")
         return Obj(name=canon)
 
+    return hook
+
+
+def _run_with_registry(repo: Repo, folder: Folder, fi: FuncInfo, params: dict[str, t.Any], hook: t.Callable[..., t.Any]) -> tuple[str, t.Any] | None:
+    """one statement-by-statement run of fi with codecs.lookup answered by the registry table: ("return", value) /
+    ("raise", exception name or None); None when the run cannot be followed to a known result."""
+    fe = FuncEval(repo, folder, fi, params=params, call_hook=hook)
+    fe.raising = True
+    try:
+        res = fe.concrete()
+    except Raised as sig:
+        res = ("raise", sig.exc)
+    if res is None or (res[0] == "return" and res[1] is UNK):
+        return None
+    return res
+
+
+def _charset_registry_scenarios(ctx: Ctx, folder: Folder, fi: FuncInfo, vp: str, ip: str) -> int:
+    """CharsetAccept._value_matches followed statement by statement on charset labels with every call of codecs.lookup
+    answered by the scenario on BOTH of its outcomes - a codec is found (a record whose .name is the canonical name,
+    the same for every spelling and alias of the label) or LookupError is raised (the label is not in the registry) -
+    so that each path of the normaliser, the handler's included, has to produce a case-insensitive, alias-free form.
+    Charset names are case-insensitive whether or not Python ships a codec for them."""
+    repo = ctx.repo
+    hook = _registry_hook(repo)
     n = 0
     for item, value, expect, what in _CHARSET_SCEN:
-        fe = FuncEval(repo, folder, fi, params={vp: value, ip: item}, call_hook=hook)
-        fe.raising = True
-        try:
-            res = fe.concrete()
-        except Raised as sig:
-            res = ("raise", sig.exc)
-        if res is None or (res[0] == "return" and res[1] is UNK):
+        res = _run_with_registry(repo, folder, fi, {vp: value, ip: item}, hook)
+        if res is None:
             raise AnalysisError(f"{fi.qualname}: cannot follow the comparison of range {item!r} with offer {value!r} statement by statement (codecs.lookup answered by the scenario: "
                                 f"{'codec ' + _CODECS[item.lower()] if item.lower() in _CODECS else 'LookupError'} / {'codec ' + _CODECS[value.lower()] if value.lower() in _CODECS else 'LookupError'})")
         if res[0] == "raise":
@@ -2468,6 +2507,40 @@ def _charset_registry_scenarios(ctx: Ctx, folder: Folder, fi: FuncInfo, vp: str,
     return n
 
 
+def _mapped_elt(d: t.Any) -> ast.AST | None:
+    """for `a, b = map(f, (x, y))` / `a, b = [f(v) for v in (x, y)]` / `a, b = (f(v) for v in (x, y))` the expression
+    bound to d's name: f applied to the element at d's position (one function over a literal tuple of as many
+    elements as there are plain names on the left)."""
+    tg = getattr(d.stmt, "targets", None)
+    tgt = tg[0] if tg and len(tg) == 1 else None
+    v = d.value
+    if not isinstance(tgt, (ast.Tuple, ast.List)) or d.index is None or any(not isinstance(x, ast.Name) for x in tgt.elts):
+        return None
+    if isinstance(v, ast.Call) and isinstance(v.func, ast.Name) and v.func.id in ("list", "tuple") and len(v.args) == 1 and not v.keywords:
+        v = v.args[0]
+    if isinstance(v, ast.Call) and isinstance(v.func, ast.Name) and v.func.id == "map" and len(v.args) == 2 and not v.keywords:
+        f, seq = v.args
+        if isinstance(seq, (ast.Tuple, ast.List)) and len(seq.elts) == len(tgt.elts) and not any(isinstance(x, ast.Starred) for x in seq.elts) and isinstance(f, (ast.Name, ast.Attribute)):
+            return ast.copy_location(ast.Call(func=f, args=[seq.elts[d.index]], keywords=[]), v)
+        return None
+    if isinstance(v, (ast.ListComp, ast.GeneratorExp)) and len(v.generators) == 1:
+        g = v.generators[0]
+        seq = g.iter
+        if (g.ifs or g.is_async or not isinstance(g.target, ast.Name) or not isinstance(seq, (ast.Tuple, ast.List)) or len(seq.elts) != len(tgt.elts)
+                or any(isinstance(x, ast.Starred) for x in seq.elts)):
+            return None
+        var, arg = g.target.id, seq.elts[d.index]
+        if any(isinstance(x, (ast.Lambda, ast.NamedExpr, ast.ListComp, ast.GeneratorExp, ast.SetComp, ast.DictComp)) for x in ast.walk(v.elt)):
+            return None
+
+        class S(ast.NodeTransformer):
+            def visit_Name(self, n: ast.Name) -> ast.AST:
+                return ast.parse(ast.unparse(arg), mode="eval").body if n.id == var and isinstance(n.ctx, ast.Load) else n
+
+        return ast.copy_location(S().visit(ast.parse(ast.unparse(v.elt), mode="eval").body), v)
+    return None
+
+
 def _expanded(fe: FuncEval, e: ast.AST, node: Node | None, mp: dict[str, str], depth: int = 0) -> ast.AST:
     """copy of e in which every local that has one plain definition is replaced by that definition's value (followed a
     few levels), and the names in ``mp`` are renamed."""
@@ -2477,7 +2550,7 @@ def _expanded(fe: FuncEval, e: ast.AST, node: Node | None, mp: dict[str, str], d
                 ds = fe.rd.reaching(node, n.id)
                 if len(ds) == 1:
                     d = next(iter(ds))
-                    v = d.value if _plain(d) else FuncEval._literal_elt(d) if d.kind == "unpack" else None
+                    v = d.value if _plain(d) else (FuncEval._literal_elt(d) or _mapped_elt(d)) if d.kind == "unpack" else None
                     if v is not None:
                         return _expanded(fe, v, d.node, mp, depth + 1)
             return ast.copy_location(ast.Name(id=mp.get(n.id, n.id), ctx=n.ctx), n)
